@@ -47,6 +47,8 @@ pub struct GenOpts {
     pub threads: Vec<u32>,
     /// ZBDD reordering is a known finding (C08); off in the general workloads
     pub zbdd_order: bool,
+    /// 0 = fault-free streams, 1 = writer/reader faults, 2 = stored-byte faults
+    pub io_mode: u32,
 }
 
 impl GenOpts {
@@ -63,6 +65,7 @@ impl GenOpts {
             allow_dddmp: false,
             threads: vec![1],
             zbdd_order: false,
+            io_mode: 0,
         }
     }
     pub fn emph(mut self, c: Class, w: u32) -> Self {
@@ -598,6 +601,9 @@ pub fn gen_config(rng: &mut Rng, opts: &GenOpts) -> Config {
         probe: capacity < 100 && threads == 1,
         oom_ok: capacity < 100,
         unguarded: false,
+        io_faults: opts.io_mode == 1,
+        io_corrupt: opts.io_mode == 2,
+        io_seed: rng.next(),
     }
 }
 
